@@ -17,7 +17,7 @@ def isOptName (c : Ctx) (s : String) : Bool :=
   | some (sh, nm) => c.contains (nm, sh)
   | none => false
 
-/-- the token starts with a dash -/
+/-- the token starts with a dash (= the public `fcppt::options::is_option`, src/options/is_option.cpp) -/
 def flagLike (s : String) : Bool := s.toList.head? = some '-'
 
 /-- `skipped c l`: `l` reads, left to right, as flags and *option name, value* pairs only, and does not end in an
